@@ -151,11 +151,10 @@ class _CachedStorage(BaseStorage, BaseHeartbeat):
                 self._studies[study_id] = _StudyInfo()
             study = self._studies[study_id]
             self._add_trials_to_cache(study_id, [frozen_trial])
-            # Since finished trials will not be modified by any worker, we do not
-            # need storage access for them.
-            if frozen_trial.state.is_finished():
-                study.last_finished_trial_id = max(study.last_finished_trial_id, trial_id)
-            else:
+            # NOTE: ``last_finished_trial_id`` must not be advanced here even if the new trial is
+            # already finished. Trials with smaller ids created by other processes may not have
+            # been read yet, and ``_read_trials_from_remote_storage`` would skip them forever.
+            if not frozen_trial.state.is_finished():
                 study.unfinished_trial_ids.add(trial_id)
         return trial_id
 
